@@ -108,7 +108,8 @@ def run(tier, replay=None):
                                               "input": {"tuple(id N l1 l2 n a b A B)": tby.get(tid)}, "observed": l, "n": int(ekv["mismatches"])})
         blocks, _ = pair_k.run_pairs(cases, tmp)
         active = set(k.get("id") for k in load_known() if k.get("status") == "known")
-        viol = []; known = []; nscreened = 0; worst = 0.0
+        active_ids = active
+        viol = []; known = []; nscreened = 0; worst = 0.0; dviol = []
         for c in cases:
             b = blocks[c["id"]]
             on = b["v_d"][2]; off = b["v_ns"][2]
@@ -127,6 +128,47 @@ def run(tier, replay=None):
             else:
                 site = "per-l shell-pair screen" if dvl <= tol else ("primitive estimate screen" if dvp <= tol else "several sites")
                 viol.append((c, "screens discard %.3e > %.3e = 1e-9 x prod sum|c| (kind %s, classes %d,%d,%d); removed by bypassing: %s" % (dv, tol, c["extra"]["kind"], c["shells"][0]["l"], c["shells"][1]["l"], max(p["l"] for p in c["ecps"][0]["p"]), site)))
+        # ---- derivatives: the nine first- and 45 second-derivative blocks, every screen active vs every screen bypassed, on a subset of the
+        #      cases (classes with LA+2, LB+2 <= MAX_L) and on marginal geometries (tight shells at the distance where the per-l estimate of the
+        #      pair crosses its threshold: the shifted shells L+1, L+2 the derivative routines build must be screened with THEIR estimates)
+        dcases = []
+        for c in cases:
+            if c["shells"][0]["l"] + 2 <= maxl and c["shells"][1]["l"] + 2 <= maxl and len(dcases) < (30 if tier == "quick" else 300):
+                dc = dict(c); dc["id"] = "D" + c["id"]; dc["extra"] = dict(c["extra"], deriv=2); dcases.append(dc)
+        for k in range(40 if tier == "quick" else 400):
+            # all-tight shell on the ECP centre's side, second shell scanned through the marginal band
+            la = rng.randint(0, min(1, maxl - 2)); lb = rng.randint(0, min(1, maxl - 2))
+            ea = rng.uniform(3.0, 9.0); eb = rng.uniform(1.5, 6.0)
+            cA = rng.choice([1.0, 0.3, 0.03, 0.01]); cB = rng.choice([1.0, 0.3, 0.03])
+            A = [0.3 * x for x in gen.rand_dir(rng)]
+            dB = rng.uniform(3.4, 6.2)
+            B = [-dB, 0.05 * rng.uniform(-1, 1), 0.05 * rng.uniform(-1, 1)]
+            sa = {"l": la, "c": A, "e": [ea, ea * rng.uniform(1.2, 2.0)], "d": [cA, cA * 0.7]}
+            sb = {"l": lb, "c": B, "e": [eb], "d": [cB]}
+            u = {"c": [0.0, 0.0, 0.0], "p": [{"n": 2, "l": 0, "a": rng.uniform(2.0, 8.0), "d": rng.uniform(2.0, 8.0)}, {"n": 2, "l": 1, "a": rng.uniform(1.0, 4.0), "d": rng.uniform(1.0, 4.0)},
+                                             {"n": 2, "l": 2, "a": rng.uniform(0.5, 2.0), "d": -rng.uniform(0.5, 2.0)}]}
+            dcases.append({"id": "Dm%d" % k, "extra": {"kind": "marginal-derivative", "deriv": 2}, "shells": [sa, sb], "ecps": [u]})
+        dblocks, _ = pair_k.run_pairs(dcases, tmp, tag="d")
+        nder = 0; dworst = 0.0; dknown = []
+        for c in dcases:
+            b = dblocks[c["id"]]
+            tol = 1e-9 * coef_scale(c)
+            for key, what in (("g", "first-derivative"), ("h", "second-derivative")):
+                if key + "_d" not in b:
+                    continue
+                on = b[key + "_d"][2]; off = b[key + "_ns"][2]
+                dv = max(abs(x - y) for x, y in zip(on, off)); nder += 1
+                dworst = max(dworst, dv / tol)
+                if dv <= tol:
+                    continue
+                offp = b[key + "_nsp"][2]; offl = b[key + "_nsl"][2]
+                dvp = max(abs(x - y) for x, y in zip(offp, off)); dvl = max(abs(x - y) for x, y in zip(offl, off))
+                if dvp <= tol and "F-C12-screen" in active_ids:
+                    dknown.append((c["id"], dv, tol))
+                else:
+                    site = "per-l shell-pair screen" if dvl <= tol else ("primitive estimate screen" if dvp <= tol else "several sites")
+                    dviol.append((c, "%s blocks: screens discard %.3e > %.3e = 1e-9 x prod sum|c| (kind %s, classes %d,%d); removed by bypassing: %s" % (what, dv, tol, c["extra"]["kind"], c["shells"][0]["l"], c["shells"][1]["l"], site)))
+        res.cov["derivative_block_sets_compared_on_vs_off"] = nder; res.cov["derivative_worst_ratio_to_tolerance"] = dworst
         # integrator level: stretched systems, API screen on vs off
         sysc = []
         for k in range(10 if tier == "quick" else 60):
@@ -172,6 +214,8 @@ def run(tier, replay=None):
                 sysc.append({"id": "y%d_%d" % (nst, mode), "extra": {"order": 0, "noscreen": mode, "init_stretch": stretch}, "shells": sh_, "ecps": ec, "_sa": sa_, "_ea": ea_})
             nst += 1; nmoved += 1
         res.cov["systems_initialised_elsewhere_and_moved"] = nmoved
+        viol += dviol
+        known += dknown
         mism, m = api_k.run_driver(sysc, tmp)
         mats = {}
         cur = None
